@@ -39,7 +39,15 @@ type processedMetric struct {
 	Name         string
 	Attributes   map[string]string
 	TimeUnixNano uint64
-	Value        uint64
+	Value        float64
+}
+
+// numberDataPointValue returns the value of a gauge/sum datapoint whichever way it is carried (double or integer).
+func numberDataPointValue(dataPoint *metricspb.NumberDataPoint) float64 {
+	if _, ok := dataPoint.Value.(*metricspb.NumberDataPoint_AsInt); ok {
+		return float64(dataPoint.GetAsInt())
+	}
+	return dataPoint.GetAsDouble()
 }
 
 func ProcessMetricsIngest(ctx *fasthttp.RequestCtx, myid int64) {
@@ -82,7 +90,7 @@ func ingestMetrics(request *collmetricspb.ExportMetricsServiceRequest, myid int6
 				extractedMetrics := processMetric(metrics)
 				for _, metric := range extractedMetrics {
 					dpCount++
-					data, err := ConvertToOTLPMetricsFormat(metric, int64(metric.TimeUnixNano), float64(metric.Value))
+					data, err := ConvertToOTLPMetricsFormat(metric, int64(metric.TimeUnixNano), metric.Value)
 					if err != nil {
 						numFailedDps++
 						log.Errorf("OLTPMetrics: failed to ConvertToOTLPMetricsFormat data=%+v, err=%v", data, err)
@@ -156,7 +164,7 @@ func processMetric(metric *metricspb.Metric) []processedMetric {
 				Name:         metric.Name,
 				Attributes:   extractAttributes(dataPoint.Attributes),
 				TimeUnixNano: dataPoint.TimeUnixNano,
-				Value:        uint64(dataPoint.GetAsDouble()),
+				Value:        numberDataPointValue(dataPoint),
 			})
 		}
 		return extracted
@@ -168,7 +176,7 @@ func processMetric(metric *metricspb.Metric) []processedMetric {
 				Name:         metric.Name,
 				Attributes:   extractAttributes(dataPoint.Attributes),
 				TimeUnixNano: dataPoint.TimeUnixNano,
-				Value:        uint64(dataPoint.GetAsDouble()),
+				Value:        numberDataPointValue(dataPoint),
 			})
 		}
 		return extracted
@@ -181,7 +189,7 @@ func processMetric(metric *metricspb.Metric) []processedMetric {
 				Name:         metric.Name,
 				Attributes:   extractAttributes(dataPoint.Attributes),
 				TimeUnixNano: dataPoint.TimeUnixNano,
-				Value:        dataPoint.Count,
+				Value:        float64(dataPoint.Count),
 			})
 		}
 		return extracted
@@ -194,7 +202,7 @@ func processMetric(metric *metricspb.Metric) []processedMetric {
 				Name:         metric.Name,
 				Attributes:   extractAttributes(dataPoint.Attributes),
 				TimeUnixNano: dataPoint.TimeUnixNano,
-				Value:        uint64(dataPoint.Scale),
+				Value:        float64(dataPoint.Scale),
 			})
 		}
 		return extracted
@@ -207,7 +215,7 @@ func processMetric(metric *metricspb.Metric) []processedMetric {
 				Name:         metric.Name,
 				Attributes:   extractAttributes(dataPoint.Attributes),
 				TimeUnixNano: dataPoint.TimeUnixNano,
-				Value:        dataPoint.Count,
+				Value:        float64(dataPoint.Count),
 			})
 		}
 		return extracted
